@@ -109,15 +109,42 @@ pub fn run(args: &Args, sink: &mut Sink) {
         }
     }
     sink.stat_n("exhaustive_cases", n);
+    // size classes around imbl's chunk boundaries (64 items per leaf): every vector length x payload length for
+    // Append / Reset, and every boundary index for the indexed kinds; items are position-dependent so that any
+    // reordering shows
+    let sizes = [0usize, 1, 2, 3, 4, 5, 31, 32, 33, 63, 64, 65, 66, 127, 128, 129, 130, 200];
+    let psizes = [0usize, 1, 2, 5, 63, 64, 65, 66, 128, 129, 200];
+    let mut m = 0u64;
+    for &len in &sizes {
+        let l: Vector<V> = (0..len).map(|i| (i % 97) as V + 1).collect();
+        let mut ds: Vec<VectorDiff<V>> = vec![VectorDiff::Clear, VectorDiff::PopFront, VectorDiff::PopBack,
+            VectorDiff::PushFront { value: 777 }, VectorDiff::PushBack { value: 777 }];
+        for &pl in &psizes {
+            let values: Vector<V> = (0..pl).map(|i| 1000 + (i % 89) as V).collect();
+            ds.push(VectorDiff::Append { values: values.clone() });
+            ds.push(VectorDiff::Reset { values });
+        }
+        let mut idxs = vec![0usize, 1, len / 2, len.saturating_sub(1), len, len + 1, len + 2];
+        idxs.sort(); idxs.dedup();
+        for &i in &idxs {
+            ds.push(VectorDiff::Insert { index: i, value: 555 });
+            ds.push(VectorDiff::Set { index: i, value: 555 });
+            ds.push(VectorDiff::Remove { index: i });
+            ds.push(VectorDiff::Truncate { length: i });
+        }
+        for d in ds { m += 1; sink.case(&format!("sz{m}")); one(sink, &l, &d); }
+    }
+    sink.stat_n("size_class_cases", m);
     // random: long vectors (beyond imbl's 64-element chunks), random diffs
     let mut rng = Rng(args.seed ^ 0xD1FF);
     let rounds = if thorough { 6000 } else { 800 };
     for k in 0..rounds {
-        let len = 50 + rng.below(100);
+        let len = if rng.chance(1, 4) { rng.below(8) } else { 50 + rng.below(100) };
         let l: Vector<V> = (0..len).map(|_| rng.below(9) as V).collect();
         let idx = if rng.chance(1, 5) { len + rng.below(3) } else { rng.below(len + 1) };
         let v = rng.below(9) as V;
-        let pl: Vector<V> = (0..rng.below(80)).map(|_| rng.below(9) as V).collect();
+        let plmax = if rng.chance(1, 3) { 300 } else { 80 };
+        let pl: Vector<V> = (0..rng.below(plmax)).map(|_| rng.below(9) as V).collect();
         let d = match rng.below(11) {
             0 => VectorDiff::Append { values: pl },
             1 => VectorDiff::Clear,
